@@ -1416,6 +1416,7 @@ func main() {
 	runECIValues()
 	runECIStream()
 	runRoundTrips()
+	runLongTexts()
 	runAliases()
 	runRefusals()
 	runKanji()
